@@ -58,6 +58,13 @@ package meta
 //@ spec func decB(b int) int = ite(b > 0, b - 1, b)
 //@ opaque spec func cnt(e *Engine, l bool, h []byte, pos int, adj bool, budget int) int = ite(budget == 0 || pos > len(h) || !refFound(e, l, h, pos), 0, ite(refEnd(e, l, h, pos) == pos, ite(adj, cnt(e, l, h, nextPos(h, pos), false, budget), 1 + cnt(e, l, h, nextPos(h, pos), false, decB(budget))), 1 + cnt(e, l, h, refEnd(e, l, h, pos), true, decB(budget))))
 
+// stdlib's replaceAll loop over the same state as cnt, as the LENGTH of the output still to be produced: lastEnd is the
+// end of the last replaced match, rl the length of the replacement (C08, literal replacements)
+//@ opaque spec func rlen(e *Engine, l bool, h []byte, pos int, adj bool, lastEnd int, rl int) int = ite(pos > len(h) || !refFound(e, l, h, pos), len(h) - lastEnd, ite(refEnd(e, l, h, pos) == pos, ite(adj, rlen(e, l, h, nextPos(h, pos), false, lastEnd, rl), (pos - lastEnd) + rl + rlen(e, l, h, nextPos(h, pos), false, pos, rl)), (refStart(e, l, h, pos) - lastEnd) + rl + rlen(e, l, h, refEnd(e, l, h, pos), true, refEnd(e, l, h, pos), rl)))
+
+// ... and as its CONTENT: byte j of the output still to be produced
+//@ opaque spec func rbyte(e *Engine, l bool, h []byte, repl []byte, pos int, adj bool, lastEnd int, j int) byte = ite(pos > len(h) || !refFound(e, l, h, pos), h[lastEnd + j], ite(refEnd(e, l, h, pos) == pos, ite(adj, rbyte(e, l, h, repl, nextPos(h, pos), false, lastEnd, j), ite(j < pos - lastEnd, h[lastEnd + j], ite(j < pos - lastEnd + len(repl), repl[j - (pos - lastEnd)], rbyte(e, l, h, repl, nextPos(h, pos), false, pos, j - (pos - lastEnd) - len(repl))))), ite(j < refStart(e, l, h, pos) - lastEnd, h[lastEnd + j], ite(j < refStart(e, l, h, pos) - lastEnd + len(repl), repl[j - (refStart(e, l, h, pos) - lastEnd)], rbyte(e, l, h, repl, refEnd(e, l, h, pos), true, refEnd(e, l, h, pos), j - (refStart(e, l, h, pos) - lastEnd) - len(repl))))))
+
 // engine invariant (establishment by CompileRegexp is ASSUMED, DESIGN 6.0): the forward/reverse DFA pair computes
 // the leftmost-first reference
 //@ spec func dfaLink(e *Engine) bool = (e.dfa != nil ==> (forall h []byte, at int :: dfaFwdEnd(e.dfa, h, at) == ite(refFound(e, false, h, at), refEnd(e, false, h, at), -1))) && ((e.dfa != nil && e.reverseDFA != nil) ==> (forall h []byte, lo int :: refFound(e, false, h, lo) ==> dfaRevStart(e.reverseDFA, h, lo, refEnd(e, false, h, lo)) == refStart(e, false, h, lo)))
@@ -190,7 +197,19 @@ package meta
 //@   requires e != nil
 //@ trusted func (*Engine).NumCaptures
 //@   requires e != nil
-//@   ensures result >= 1
+//@   ensures result >= 1 && result <= 1073741824
+
+// capture search (C03 is about its content; here only what the replace loop needs, ASSUMED): found iff the reference
+// finds a match, group 0 is the reference span, every captured group lies inside the haystack
+//@ spec func grpS(m *MatchWithCaptures, i int) int = ite(0 <= i && i < len(m.captures) && len(m.captures[i]) >= 2, m.captures[i][0], -1)
+//@ spec func grpE(m *MatchWithCaptures, i int) int = ite(0 <= i && i < len(m.captures) && len(m.captures[i]) >= 2, m.captures[i][1], -1)
+//@ trusted func (*Engine).FindSubmatchAt
+//@   requires engineOK(e) && 0 <= at
+//@   modifies @searchState
+//@   ensures at <= len(haystack) ==> (result != nil) == refFound(e, e.longest, haystack, at)
+//@   ensures result != nil ==> at <= len(haystack) && fresh(result) && grpS(result, 0) == refStart(e, e.longest, haystack, at) && grpE(result, 0) == refEnd(e, e.longest, haystack, at)
+//@   ensures result != nil ==> fresh(result.captures) && (forall i :: 0 <= i && i < len(result.captures) ==> result.captures[i] == nil || fresh(result.captures[i]))
+//@   ensures result != nil ==> (forall i :: 0 <= i ==> (grpS(result, i) == -1 && grpE(result, i) == -1) || (0 <= grpS(result, i) && grpS(result, i) <= grpE(result, i) && grpE(result, i) <= len(haystack)))
 
 // ---- C19: anchored-literal fast path (^prefix.*class+suffix$) ----------------------------------------------------
 // alSplit(k): the last k bytes before the suffix are the class run, what is left of the middle is the wildcard;
